@@ -1221,9 +1221,13 @@ impl ser::Serializer for TableSerializer {
 
     fn serialize_struct(
         self,
-        _name: &'static str,
+        name: &'static str,
         len: usize,
     ) -> Result<Self::SerializeStruct, crate::ser::Error> {
+        if name == datetime::NAME {
+            // a bare date-time is not a table
+            return Err(crate::ser::Error::unsupported_type(Some(name)));
+        }
         self.serialize_map(Some(len))
     }
 
